@@ -172,7 +172,7 @@ def expand(unit, repo=None):
     return ex
 
 
-A_KINDS = ('postcondition not satisfied', 'precondition not satisfied', 'possible arithmetic underflow/overflow',
+A_KINDS = ('postcondition not satisfied', 'precondition not satisfied', 'unable to prove post-condition of closure', 'possible arithmetic underflow/overflow',
            'possible division by zero', 'index out of bounds', 'assertion failed', 'unreachable',
            'possible bit shift underflow/overflow', 'panic')
 B_KINDS = ('invariant not satisfied', 'loop invariant', 'decreases not satisfied', 'Resource limit', 'rlimit',
